@@ -18,6 +18,7 @@
 //! C18 cases (`case <name> kind=acc max=<n|default> tmo=<ms|default>`): the header builds factory 0
 //! (`Acceptor::new`, `set_handshake_timeout`) and service 0 of both flavours; `fnew` / `fset f ms` / `fclone f` /
 //! `fsvc f` create, configure, clone factories and build further services on the same thread;
+//! `poll k [w]` polls accept future `k` from task `w` (0..2, distinct wakers; the task that polled last owns it);
 //! `call <lib> <cli> [s]` goes through service `s`; the header's limit is configured on the harness MAIN thread before
 //! the case's thread exists (`set=self`: on the case's thread); `setmax n` = `max_concurrent_tls_connect(n)` once the
 //! thread's counter exists (no effect there), `probe` = the limit a freshly spawned thread gets; `ready [w]` asks every service for readiness from task `w`
@@ -1735,7 +1736,10 @@ mod acc {
 
     pub struct ConnRec {
         sfut: Option<SFut>,
-        flag: Arc<Flag>,
+        /// wake flags of the tasks that poll this accept future (`poll k [w]`, distinct wakers)
+        flags: [Arc<Flag>; 3],
+        /// the task that polled it LAST: it owns the future, the executor discipline re-polls from this task
+        cur: usize,
         hs: Option<DuplexStream>, // harness end of the server's transport
         cfut: Option<CFut>,
         hd: DuplexStream, // harness end of the client's transport
@@ -1787,6 +1791,13 @@ mod acc {
         SvcPair { r, o, tmo_ms: f.tmo_ms }
     }
     const MAX_FACS: usize = 8;
+
+    impl ConnRec {
+        /// which of the tasks that polled this accept future have been woken: bit `w` for task `w`
+        fn wmask(&self) -> u8 {
+            self.flags.iter().enumerate().map(|(i, f)| (f.get() as u8) << i).sum()
+        }
+    }
 
     pub struct AccCase {
         /// factories and services of this thread in order of creation; number 0 of each is what the case
@@ -2036,7 +2047,8 @@ mod acc {
             };
             self.conns.push(ConnRec {
                 sfut: Some(sfut),
-                flag: Flag::new(),
+                flags: [Flag::new(), Flag::new(), Flag::new()],
+                cur: 0,
                 hs: Some(hs),
                 cfut: Some(cfut),
                 hd,
@@ -2075,13 +2087,16 @@ mod acc {
             }
         }
 
-        fn poll_one(&mut self, k: usize) -> Option<Outcome> {
+        /// poll accept future `k` from task `wk` (`None`: the task that polled it last)
+        fn poll_one(&mut self, k: usize, wk: Option<usize>) -> Option<Outcome> {
             let now = self.now_ms();
             let inprog = self.alive();
             let was_pending = self.parked_now();
             let c = &mut self.conns[k];
-            c.flag.clear();
-            let w = Waker::from(c.flag.clone());
+            let wk = wk.unwrap_or(c.cur);
+            c.cur = wk;
+            c.flags[wk].clear();
+            let w = Waker::from(c.flags[wk].clone());
             let fut = c.sfut.as_mut().unwrap();
             let r = pollu(&w, |cx| fut.as_mut().poll(cx));
             c.polled = true;
@@ -2147,11 +2162,11 @@ mod acc {
             out
         }
 
-        fn op_poll(&mut self, k: usize) -> Option<String> {
+        fn op_poll(&mut self, k: usize, wk: usize) -> Option<String> {
             if self.conns.get(k)?.sfut.is_none() {
                 return None;
             }
-            let o = self.poll_one(k);
+            let o = self.poll_one(k, Some(wk));
             Some(format!("{} r={}", o.map(|o| o.s()).unwrap_or("pending"), self.rf()))
         }
 
@@ -2196,12 +2211,12 @@ mod acc {
                 c.held.extend_from_slice(&bytes);
             }
             if c.held.is_empty() {
-                return Some(format!("nothing w={}", c.flag.get() as u8));
+                return Some(format!("nothing w={}", c.wmask()));
             }
             let n = match mode {
                 "part" => {
                     if c.held.len() < 2 {
-                        return Some(format!("nothing w={}", c.flag.get() as u8));
+                        return Some(format!("nothing w={}", c.wmask()));
                     }
                     c.held.len() / 2
                 }
@@ -2212,7 +2227,7 @@ mod acc {
             if c.held.is_empty() {
                 c.delivered += 1;
             }
-            Some(format!("sent w={}", c.flag.get() as u8))
+            Some(format!("sent w={}", c.wmask()))
         }
 
         fn op_garbage(&mut self, k: usize, kind: &str) -> Option<String> {
@@ -2233,7 +2248,7 @@ mod acc {
             };
             push(c.hs.as_mut().unwrap(), &bytes);
             c.spoiled = true;
-            Some(format!("ok w={}", c.flag.get() as u8))
+            Some(format!("ok w={}", c.wmask()))
         }
 
         fn op_close(&mut self, k: usize) -> Option<String> {
@@ -2243,11 +2258,18 @@ mod acc {
             }
             c.hs = None; // the peer goes away (both directions): the server can no longer send its own last flight
             c.spoiled = true;
-            Some(format!("ok w={}", c.flag.get() as u8))
+            Some(format!("ok w={}", c.wmask()))
         }
 
         fn woken_list(&self) -> String {
-            let mut v: Vec<String> = self.conns.iter().enumerate().filter(|(_, c)| c.sfut.is_some() && c.flag.get()).map(|(i, _)| i.to_string()).collect();
+            let mut v: Vec<String> = vec![];
+            for (k, c) in self.conns.iter().enumerate().filter(|(_, c)| c.sfut.is_some()) {
+                for (i, f) in c.flags.iter().enumerate() {
+                    if f.get() {
+                        v.push(if i == 0 { k.to_string() } else { format!("{k}.{i}") });
+                    }
+                }
+            }
             for (i, f) in self.rflags.iter().enumerate() {
                 if f.get() {
                     v.push(if i == 0 { "r".to_string() } else { format!("r{i}") });
@@ -2259,11 +2281,26 @@ mod acc {
         async fn op_advance(&mut self, ms: u64) -> String {
             for _ in 0..ms {
                 for c in self.conns.iter_mut() {
-                    if c.sfut.is_some() && (c.flag.get() || !c.polled) {
+                    if c.sfut.is_some() && (c.flags[c.cur].get() || !c.polled) {
                         c.diligent = false; // time passes while it is owed a poll
                     }
                 }
+                let before = self.now_ms();
                 tokio::time::advance(Duration::from_millis(1)).await;
+                let now = self.now_ms();
+                // the handshake timeout of a pending future that has been polled expires: the task that polled it
+                // LAST (which owns it now) is the one that must be woken, whoever polled it before
+                for (k, c) in self.conns.iter().enumerate() {
+                    if c.sfut.is_some() && c.polled && before < c.deadline_ms && c.deadline_ms <= now && !c.flags[c.cur].get() {
+                        let others: Vec<String> = (0..3).filter(|i| *i != c.cur && c.flags[*i].get()).map(|i| i.to_string()).collect();
+                        self.t3.push(format!(
+                            "handshake timeout of future {k} expired at {} ms: task {}, the last to poll it, was not woken{}",
+                            c.deadline_ms,
+                            c.cur,
+                            if others.is_empty() { String::new() } else { format!("; woken instead: task {}", others.join(",")) }
+                        ));
+                    }
+                }
             }
             format!("t={} woken={}", self.now_ms(), self.woken_list())
         }
@@ -2271,13 +2308,13 @@ mod acc {
         /// executor discipline: every future is polled once when spawned and then whenever its waker has fired
         fn sweep(&mut self, done: &mut Vec<String>) {
             loop {
-                let ks: Vec<usize> = self.conns.iter().enumerate().filter(|(_, c)| c.sfut.is_some() && (c.flag.get() || !c.polled)).map(|(i, _)| i).collect();
+                let ks: Vec<usize> = self.conns.iter().enumerate().filter(|(_, c)| c.sfut.is_some() && (c.flags[c.cur].get() || !c.polled)).map(|(i, _)| i).collect();
                 if ks.is_empty() {
                     break;
                 }
                 for k in ks {
                     let (deadline, now, diligent) = (self.conns[k].deadline_ms, self.now_ms(), self.conns[k].diligent);
-                    if let Some(o) = self.poll_one(k) {
+                    if let Some(o) = self.poll_one(k, None) {
                         if now > deadline && diligent {
                             self.t3.push(format!("future {k}, polled whenever woken, resolved at {now} ms, later than its deadline {deadline} ms"));
                         }
@@ -2633,7 +2670,11 @@ mod acc {
                 },
                 ["fclone", f] => canon_num(f, 64).and_then(|f| self.op_fclone(f as usize)),
                 ["fsvc", f] => canon_num(f, 64).and_then(|f| self.op_fsvc(f as usize)),
-                ["poll", k] => idx(k).and_then(|k| self.op_poll(k)),
+                ["poll", k] => idx(k).and_then(|k| self.op_poll(k, 0)),
+                ["poll", k, w] => match (idx(k), canon_num(w, 2)) {
+                    (Some(k), Some(w)) => self.op_poll(k, w as usize),
+                    _ => None,
+                },
                 ["drop", k] => idx(k).and_then(|k| self.op_drop(k)),
                 ["cflight", k, mode] => idx(k).and_then(|k| self.op_cflight(k, mode)),
                 ["garbage", k, kind] => idx(k).and_then(|k| self.op_garbage(k, kind)),
@@ -3511,6 +3552,65 @@ fn gen_c18(a: &Args, w: &mut dyn Write) {
             }
         }
     }
+    // (W) the accept future is polled by different tasks in turn (distinct wakers: moved to another task, `select!`,
+    //     `FuturesUnordered` re-polling with a new waker) while the client stalls: the handshake timeout must wake
+    //     the task that polled LAST, which then gets `Timeout` - and so must bytes arriving on the transport
+    let mut wi = 0usize;
+    for lib in libs {
+        for order in [&[0usize, 1][..], &[1, 0], &[1, 2], &[2, 0, 1], &[0, 1, 0], &[2, 2, 1], &[1]] {
+            for st in 0..4usize {
+                wi += 1;
+                let cli = clis[wi % 4];
+                let t = [200u64, 300, 1000, 3500][wi % 4];
+                let last = *order.last().unwrap();
+                // (a) by hand: polls under the wakers of `order`, clock to the deadline, the last poller polls again
+                writeln!(w, "case fut-wakers-{lib}-{wi}a kind=acc max=2 tmo={t}").unwrap();
+                writeln!(w, "call {lib} {cli}").unwrap();
+                for (j, wk) in order.iter().enumerate() {
+                    if j == 1 {
+                        // the client moves on between two polls (up to handshake stage `st`)
+                        for step in ["part", "rest", "part"].iter().take(st) {
+                            writeln!(w, "cflight 0 {step}").unwrap();
+                            writeln!(w, "poll 0 {}", order[0]).unwrap();
+                        }
+                    }
+                    writeln!(w, "advance {}", 7 * j).unwrap();
+                    writeln!(w, "poll 0 {wk}").unwrap();
+                }
+                writeln!(w, "advance {}", t - 7 * (order.len() as u64 - 1) * order.len() as u64 / 2 - 1).unwrap();
+                writeln!(w, "advance 1").unwrap();
+                writeln!(w, "poll 0 {last}").unwrap();
+                writeln!(w, "ready").unwrap();
+                // (b) the executor discipline: the owning task re-polls whenever IT is woken
+                writeln!(w, "case fut-wakers-{lib}-{wi}b kind=acc max=2 tmo={t}").unwrap();
+                writeln!(w, "call {lib} {cli}").unwrap();
+                for wk in order {
+                    writeln!(w, "poll 0 {wk}").unwrap();
+                }
+                if st >= 2 {
+                    writeln!(w, "cflight 0 full").unwrap();
+                    writeln!(w, "run 5").unwrap();
+                    writeln!(w, "poll 0 {}", (last + 1) % 3).unwrap();
+                }
+                writeln!(w, "run {}", t - 1).unwrap();
+                writeln!(w, "run 1").unwrap();
+                writeln!(w, "run 20").unwrap();
+                if st == 3 {
+                    // a handshake that completes after the future changed hands
+                    writeln!(w, "call {lib} {cli}").unwrap();
+                    writeln!(w, "poll 1 {}", order[0]).unwrap();
+                    writeln!(w, "cflight 1 full").unwrap();
+                    writeln!(w, "poll 1 {last}").unwrap();
+                    writeln!(w, "cflight 1 full").unwrap();
+                    writeln!(w, "run 0").unwrap();
+                    writeln!(w, "echo 1 100 {wi}").unwrap();
+                }
+            }
+        }
+    }
+    for l in ["case fut-wakers-bad kind=acc max=2 tmo=100", "call r r13", "poll 0 3", "poll 0 00", "poll 0 x", "poll 0 1 1", "poll 1 1", "poll 0 2"] {
+        writeln!(w, "{l}").unwrap();
+    }
     // (H) the limit is process-wide state configured by start-up code on ANOTHER thread than the one the services
     //     live on.  Every case of this file with `max=<n>` has its limit set on the harness main thread before the
     //     case's thread is spawned (`set=main`, the default); here: the demo shape on its own (limit-many stalled
@@ -3954,6 +4054,7 @@ fn gen_c18(a: &Args, w: &mut dyn Write) {
                     writeln!(w, "call {} {}", rng.pick(&libs), rng.pick(&clis)).unwrap();
                     calls += 1;
                 }
+                4 if rng.chance(1, 2) => writeln!(w, "poll {k} {}", rng.below(3)).unwrap(),
                 4..=7 => writeln!(w, "poll {k}").unwrap(),
                 8..=11 => writeln!(w, "cflight {k} {}", rng.pick(&["full", "full", "full", "part", "rest"])).unwrap(),
                 12 => writeln!(w, "garbage {k} {}", rng.pick(&kinds)).unwrap(),
